@@ -46,15 +46,21 @@ def tok(sym, D):
     return {"k": "o", "s": C.cps(sym), "chain": D.get(sym, [])}
 
 
-def xml_of(seq):
-    """seq: list of 'a' (operand) or an operator string."""
+EMBELLISH = {"under": "<munder>{}<mi>k</mi></munder>", "over": "<mover>{}<mtext>def</mtext></mover>", "underover": "<munderover>{}<mi>k</mi><mi>n</mi></munderover>",
+             "sub": "<msub>{}<mi>k</mi></msub>"}
+
+
+def xml_of(seq, emb=None):
+    """seq: list of 'a' (operand) or an operator string; emb: {index: kind of embellishment} - an embellished operator (an mo with
+    limits or a subscript) IS that operator for the parser (get_possible_embellished_node), so the reference parse is the same."""
     out, k = [], 0
-    for s in seq:
+    for i, s in enumerate(seq):
         if s == "a":
             out.append(f"<mi>{OPERANDS[k % len(OPERANDS)]}</mi>")
             k += 1
         else:
-            out.append("<mo>" + s.replace("&", "&amp;").replace("<", "&lt;").replace(">", "&gt;") + "</mo>")
+            mo = "<mo>" + s.replace("&", "&amp;").replace("<", "&lt;").replace(">", "&gt;") + "</mo>"
+            out.append(EMBELLISH[emb[i]].format(mo) if emb and i in emb else mo)
     return "".join(out)
 
 
@@ -244,11 +250,24 @@ def run(tier):
                 seq.append(r2.choice(by_kind["infix"]))
         seq += [fence[1]] * len(opened_at)
         cases.append((seq, None, CONTEXTS[i % len(CONTEXTS)]))
+    cases = [c + ({},) for c in cases]
+    # embellished operators: one operator of a row (never a fence: a script on a closing fence is an idiom of its own) carries limits
+    # or a subscript - the row has to be bracketed exactly as without them. Over the TLC-enumerated sequences and the random rows.
+    fences = set("()[]{}|‖∥")
+    base = list(cases)
+    for i, (seq, wf, ctx, _) in enumerate(base):
+        if tier == "quick" and i % 3:
+            continue
+        r2 = random.Random(C.seed() * 15485863 + i)
+        at = [j for j, x in enumerate(seq) if x != "a" and x not in fences]
+        if not at:
+            continue
+        cases.append((seq, wf, ctx, {r2.choice(at): r2.choice(sorted(EMBELLISH))}))
     scripts = []
     for b in range(0, len(cases), 400):
         ops = [{"op": "set_rules_dir", "dir": "$RULES", "setup": True}]
-        for seq, wf, ctx in cases[b:b + 400]:
-            ops.append({"op": "set_mathml", "mathml": wrap(xml_of(seq), ctx)})
+        for seq, wf, ctx, emb in cases[b:b + 400]:
+            ops.append({"op": "set_mathml", "mathml": wrap(xml_of(seq, emb), ctx)})
         scripts.append({"id": f"rows{b}", "ops": ops, "isolate_on_panic": True})
     results = C.run_mcv(scripts, wd, name="rows", timeout_ms=60000)
     events, back = [], []
@@ -256,7 +275,7 @@ def run(tier):
     ci = 0
     for s, r in zip(scripts, results):
         for o, rr in zip(s["ops"][1:], r["results"][1:]):
-            seq, wf, ctx = cases[ci]
+            seq, wf, ctx, emb = cases[ci]
             ci += 1
             if rr["r"] != "ok":
                 skipped["not-ok"] += 1      # a crash or an error on a row is C08's business
@@ -280,6 +299,12 @@ def run(tier):
                     plain = 0           # '|' '|' is merged into one double bar before the parse
                     skipped["merged-bars"] = skipped.get("merged-bars", 0) + 1
                     break
+            for i in emb:
+                if i > 0 and seq[i - 1] in ("|", "‖", "∥"):
+                    # determine_vertical_bar_op looks for the operand of the NEXT operator among the siblings of the embellished
+                    # operator's base (its script) instead of the row: which reading of the bar that gives is outside the plain class
+                    plain = 0
+                    skipped["embellished-operator-after-bar"] = skipped.get("embellished-operator-after-bar", 0) + 1
             for i in range(len(seq) - 2):
                 if seq[i] == "(" and seq[i + 2] == ")":
                     # '( x )' around one token is grouped by the chemistry pre-pass (it may be a state such as (s), (g)) before the parse
@@ -287,7 +312,7 @@ def run(tier):
                     skipped["degenerate-fence"] += 1
                     break
             events.append({"toks": toks, "got": got, "wf": 0, "plain": plain, "heur": 0})     # well-formedness of generated rows is decided by the spec
-            back.append(("row", o["mathml"], seq))
+            back.append(("embellished-row" if emb else "row", o["mathml"], seq))
     n_generated = len(events)
     sev, sback = suite_rows(D, wd, tier)
     events += sev
